@@ -301,6 +301,8 @@ def replay_server_history(tid, h, fe, rng):
                 sched.append((c, k))
         elif e["op"] == "rest" and c in half:
             sched.append((c, half.pop(c)))
+        elif e["op"] == "idle" and fe == "syncTcp":
+            sched.append((c, 0))          # recv() times out (only the threaded handler has such an event)
     case.add_conn(per[1])
     case.add_conn(per[2])
     case.schedule = sched
@@ -564,7 +566,7 @@ def mc(prop, rep):
     res = model_check("ServerMC", "ServerMC.cfg", timeout=900)
     rep.add_mc(res, "ServerMC.cfg")
     base = open(os.path.join(SPEC, "ServerMC.cfg")).read()
-    devs = {"C09": ["AnswersBroadcast", "NoTid"], "C10": ["BroadcastFirstOnly", "WrongUnit"], "C12": ["NoTid"], "C17": ["SharedFramer"]}[prop]
+    devs = {"C09": ["AnswersBroadcast", "NoTid", "ResetStaysOn"], "C10": ["BroadcastFirstOnly", "WrongUnit"], "C12": ["NoTid"], "C17": ["SharedFramer"]}[prop]
     for d in devs:
         bad, _ = model_check_expect_violation("ServerMC", None, cfg_text=base.replace("SDev = {}", 'SDev = {"%s"}' % d))
         if not bad:
